@@ -43,9 +43,9 @@ def gen_case(rng, ctx):
         ds = libx.normalise_raw(ds)
         scls, sch = gen.scheme(rng, "S17 S17 S16")
     else:
-        cls, ds = gen.dataset(rng, classes="D11 D11 D11 D10 D10 D8 D8 D9 D3 D2 D2 D7 D15", nmax=nmax, mmax=6)
+        cls, ds = gen.dataset(rng, classes="D11 D11 D11 D10 D10 D8 D8 D9 D3 D2 D2 D7 D15 D14 D4 D4", nmax=nmax, mmax=6)
         ds = libx.normalise_raw(ds)
-        scls, sch = gen.scheme(rng, "S1 S1 S2 S3 S3 S3 S6 S9 S11 S11 S12 S16 S16")
+        scls, sch = gen.scheme(rng, "S1 S1 S2 S3 S3 S3 S6 S9 S11 S11 S12 S16 S16 S15 S15 S13")
     # (partition, consensus) pair for consistent_with
     uni = ref.universe(ds)
     base = gen.ranking_over(rng, uni, rng.choice([0.0, 0.3, 0.5]))
@@ -194,7 +194,7 @@ def check_case(case, ctx):
     judge_partitions(case, ctx, ds, dataset, scheme, base)
     # history: the Dataset object just partitioned is mutated in place (or a dataset derived from it is) and partitioned
     # again: judged against the rankings it holds now
-    if not case.get("blocks") and len(elems) >= 3 and case["pair_seed"] % 3 == 0:
+    if not case.get("blocks") and len(elems) >= 3 and (case["pair_seed"] % 3 == 0 or any(len(r) == 0 for r in ds)):
         import random
         r2 = random.Random(case["pair_seed"])
         kind, ok = algos.mutate_in_place(dataset, ds, r2)
